@@ -17,7 +17,7 @@ from vmon.res import Result, exc_name, capture_stdout
 
 ID = "C15"
 LEVEL = "exploration"
-CASES = {"quick": 8000, "thorough": 160000}
+CASES = {"quick": 8000, "thorough": 480000}
 RULE = ("seeded random lists of 0-12 dicts (unique tag per item, ragged keys, None values, duplicate key values) x chains of 1-6 calls "
         "drawn from filter/filter_out (predicate and 1-2 key=value pairs), sort (1-3 keys x directions with None and ties), unique, select, "
         "unselect, rename, modify, modify_if, fill_missing_keys (with and without arguments), append, extend, insert (index 0, mid, len, "
